@@ -23,7 +23,9 @@ import (
 	"github.com/insomniacslk/dhcp/dhcpv6"
 
 	"verifmc/checks/c16"
+	"verifmc/checks/lease"
 	"verifmc/checks/optplug"
+	"verifmc/checks/pd"
 	"verifmc/conc"
 	"verifmc/ev"
 	"verifmc/pkt"
@@ -125,11 +127,12 @@ func chains(thorough bool) []Chain {
 		}
 	}
 	out = append(out, Chain{Proto: 4, Mode: "histories"}, Chain{Proto: 6, Mode: "histories"})
+	out = append(out, Chain{Proto: 4, Mode: "graphs"}, Chain{Proto: 6, Mode: "graphs"})
 	return out
 }
 
 func run(r *ev.Run) {
-	r.Rule("E3 (one process per plugin chain): grammar-generated seeds - v4: message type {DISCOVER, REQUEST, 5 others, none} x hlen {0,1,5,6,8,16,17,255} x PRL {absent, empty, full} x option sets x {giaddr, ciaddr, broadcast}; v6: 16 message types x client-id {absent, LL, LLT, EN, UUID, malformed} x {IA_NA, IA_PD with 9 hint shapes, ORO, rapid commit, server-id own/other} x relay depth 0..4, 32 and the deepest nesting that fits a datagram, plus all byte strings of length 0..2 - through the real HandleMsg4/6 under every single built-in plugin, the example-config chains and full chains in 3 rotations (thorough: every ordered pair), with listener {bound, unbound} x control message {nil, interface}. For the full chains also the complete 1-deviation closure of the seeds (every truncation, every single-bit flip, every byte replaced by 00/01/7f/80/ff, every adjacent option swap); thorough adds every pair of byte substitutions in the option area of 12 seeds per chain. E1: every sequence of length <= 2 (thorough 3) over the state-relevant datagrams on fresh range / prefix instances. Oracle: no panic, at most one reply, no lease-plugin mutex left held, a final well-formed probe is still handled, no datagram takes longer than the watchdog. Class = chain mode/proto/outcome.")
+	r.Rule("E3 (one process per plugin chain): grammar-generated seeds - v4: message type {DISCOVER, REQUEST, 5 others, none} x hlen {0,1,5,6,8,16,17,255} x PRL {absent, empty, full} x option sets x {giaddr, ciaddr, broadcast}; v6: 16 message types x client-id {absent, LL, LLT, EN, UUID, malformed} x {IA_NA, IA_PD with 9 hint shapes, ORO, rapid commit, server-id own/other} x relay depth 0..4, 32 and the deepest nesting that fits a datagram, plus all byte strings of length 0..2 - through the real HandleMsg4/6 under every single built-in plugin, the example-config chains and full chains in 3 rotations (thorough: every ordered pair), with listener {bound, unbound} x control message {nil, interface}. For the full chains also the complete 1-deviation closure of the seeds (every truncation, every single-bit flip, every byte replaced by 00/01/7f/80/ff, every adjacent option swap); thorough adds every pair of byte substitutions in the option area of 12 seeds per chain. E1: every sequence of length <= 2 (thorough 3) over the state-relevant datagrams on fresh range / prefix instances; plus the state graphs of C02 and C08 (requests, restarts, leases running out after an hour / two days, read-only lease database) explored breadth-first within a time budget for crashes and locks left held. Oracle: no panic, at most one reply, no lease-plugin mutex left held, a final well-formed probe is still handled, no datagram takes longer than the watchdog. Class = chain mode/proto/outcome.")
 	r.Assume("datagrams further than one deviation from a seed, chains of 3+ plugins other than the listed ones, and the real socket write are not explored; a hang is a datagram exceeding a 20 s watchdog that reproduces when re-run alone")
 	cs := chains(!r.Quick())
 	r.Set("chains", int64(len(cs)))
@@ -424,6 +427,22 @@ func worker(args []string) int {
 	}
 	if c.Mode == "histories" {
 		histories(r, c.Proto, thorough)
+		return reg.WorkerExit(r)
+	}
+	if c.Mode == "graphs" {
+		// long histories: the state graphs of the lease plugins (requests of 2-4 clients with
+		// every hint shape / hardware-address shape, restarts, leases running out after an
+		// hour and after two days, a read-only lease database) explored breadth-first within
+		// a time budget, looking only for crashes and locks left held
+		budget := 150 * time.Second
+		if thorough {
+			budget = 25 * time.Minute
+		}
+		if c.Proto == 4 {
+			lease.Crash(r, "C01", budget)
+		} else {
+			pd.Crash(r, "C01", budget)
+		}
 		return reg.WorkerExit(r)
 	}
 	in, err := build(c)
@@ -874,6 +893,16 @@ func replay(r *ev.Run, raw json.RawMessage) {
 		c = *wrap.Case
 	} else if err := json.Unmarshal(raw, &c); err != nil {
 		r.Violate("C01/replay/bad-file", err.Error(), nil)
+		return
+	}
+	var probe map[string]json.RawMessage
+	json.Unmarshal(raw, &probe)
+	if probe["pool"] != nil {
+		pd.Replay(r, "C01", raw)
+		return
+	}
+	if probe["config"] != nil {
+		lease.Replay(r, "C01", raw)
 		return
 	}
 	if len(c.History) == 0 {
